@@ -402,6 +402,12 @@ def apply(dom, world, call, st, eps=DEFAULT_EPS):
     return successor(a["eff"], env, st, world, eps)
 
 
+def beyond_float(st, limit=10 ** 9, bits=4096):
+    """A state the exact reference should stop at: a value beyond the magnitude where floats still resolve
+    the tolerances, or a rational whose size doubles with every step (x += 1/x): exact, but exponentially costly."""
+    return any(abs(v) > limit or v.denominator.bit_length() > bits for v in st[1].values())
+
+
 def states_equal(s1, s2, tol=Fraction(1, 10 ** 9)):
     if frozenset(s1[0]) != frozenset(s2[0]):
         return False
